@@ -79,6 +79,14 @@ Theorem C04_key_mask8_refuted :
      = [EKey (KChar 91) 2; EKey (KChar 49) 0; EKey (KChar 59) 0; EKey (KChar 57) 0; EKey (KChar 65) 0].
 Proof. exact xterm_mask8_refuted. Qed.
 
+(* 4b'. coverage: every entry of the library's table is pinned by the reference encoding
+   (C04_xterm_keys_upto_mask7) except 26 entries whose names are the library's own choice:
+   the six introducers, CSI P..S, and rxvt's CSI 7~ / CSI 8~ with their modified forms *)
+Theorem C04_key_table_coverage :
+  forallb (fun e => mem_bytes (fst e) xterm_image || mem_bytes (fst e) trusted_names) prod_key_table = true
+  /\ length trusted_names = 26%nat.
+Proof. exact table_coverage. Qed.
+
 (* 4c. an SGR sequence received as an event: the modification's meaning is the reference SGR
    machine of C06 (the DECRPSS face report is part of C04_single_partial) *)
 Theorem C04_sgr_event : forall (p rest : list N),
